@@ -186,6 +186,9 @@ func runC12(c c12Case) (bool, []string, error) {
 	if c12Err != nil {
 		return false, nil, fmt.Errorf("VERIF-INCONCLUSIVE building fixtures: %v", c12Err)
 	}
+	if err := c12ExoticSetup(); err != nil {
+		return false, nil, fmt.Errorf("VERIF-INCONCLUSIVE %v", err)
+	}
 	n := len(c.Programs)
 	banks := make(chan *avro.ResourceBank, 4096)
 	start := make(chan struct{})
@@ -261,7 +264,7 @@ func runC12(c c12Case) (bool, []string, error) {
 			switch op.Kind {
 			case "schema", "register":
 				touch("registry", op.Kind)
-			case "codec", "evolved":
+			case "codec", "evolved", "exotic":
 				touch("registry", op.Kind)
 			case "decode":
 				touch("codec", op.Kind)
@@ -293,6 +296,120 @@ func runC12(c c12Case) (bool, []string, error) {
 		}
 	}
 	return n >= 3 && contended, labels, nil
+}
+
+// Schemas with constructs the library may or may not support (references to named
+// types, enums): whatever it does with them alone, it does the same when several
+// goroutines use one shared Schema value and one shared, fresh codec.
+type c12ExoticT struct {
+	doc    string
+	target interface{}
+	value  func(k int) (reflect.Value, []byte) // a value of the target type and its reference encoding
+}
+
+type c12NodeT struct {
+	V int64 `json:"v"`
+}
+type c12PT struct {
+	X int64 `json:"x"`
+}
+type c12WithRefT struct {
+	A c12PT `json:"a"`
+	B c12PT `json:"b"`
+}
+type c12EnumT struct {
+	E string `json:"e"`
+}
+
+var c12Suits = []string{"SPADES", "HEARTS", "DIAMONDS", "CLUBS"}
+
+var c12Exotics = []c12ExoticT{
+	{doc: `{"type":"record","name":"Node","fields":[{"name":"v","type":"long"},{"name":"next","type":["null","Node"]}]}`, target: c12NodeT{},
+		value: func(k int) (reflect.Value, []byte) {
+			v := reflect.New(reflect.TypeOf(c12NodeT{}))
+			v.Elem().Field(0).SetInt(int64(k))
+			return v, append(ref.AppendLong(nil, int64(k)), 0)
+		}},
+	{doc: `{"type":"record","name":"WithRef","fields":[{"name":"a","type":{"type":"record","name":"P","fields":[{"name":"x","type":"long"}]}},{"name":"b","type":"P"}]}`, target: c12WithRefT{},
+		value: func(k int) (reflect.Value, []byte) {
+			v := reflect.New(reflect.TypeOf(c12WithRefT{}))
+			v.Elem().Field(0).Field(0).SetInt(int64(k))
+			v.Elem().Field(1).Field(0).SetInt(int64(-k))
+			return v, ref.AppendLong(ref.AppendLong(nil, int64(k)), int64(-k))
+		}},
+	{doc: `{"type":"record","name":"E","fields":[{"name":"e","type":{"type":"enum","name":"Suit","symbols":["SPADES","HEARTS","DIAMONDS","CLUBS"]}}]}`, target: c12EnumT{},
+		value: func(k int) (reflect.Value, []byte) {
+			v := reflect.New(reflect.TypeOf(c12EnumT{}))
+			v.Elem().Field(0).SetString(c12Suits[k%4])
+			return v, ref.AppendLong(nil, int64(k%4))
+		}},
+}
+
+// per case: the shared Schema values, their serialisation before anything was
+// built from them, and one shared codec each (nil where the library refuses)
+type c12ExoticState struct {
+	schema  avro.Schema
+	before  []byte
+	codec   avro.Codec
+	refused bool
+}
+
+var c12ExoticNow []*c12ExoticState
+
+func c12ExoticSetup() error {
+	c12ExoticNow = nil
+	for _, x := range c12Exotics {
+		st := &c12ExoticState{}
+		s, err := avro.SchemaFromString(x.doc)
+		if err != nil {
+			st.refused = true
+			c12ExoticNow = append(c12ExoticNow, st)
+			continue
+		}
+		st.schema = s
+		if st.before, err = s.Marshal(); err != nil {
+			return fmt.Errorf("Marshal: %v", err)
+		}
+		c, err := s.Codec(x.target)
+		if err != nil {
+			st.refused = true
+		} else {
+			st.codec = c
+		}
+		c12ExoticNow = append(c12ExoticNow, st)
+	}
+	return nil
+}
+
+func c12ExoticOp(i, k int) error {
+	x, st := c12Exotics[i%len(c12Exotics)], c12ExoticNow[i%len(c12Exotics)]
+	if st.before == nil {
+		return nil // the document itself is refused
+	}
+	c, err := st.schema.Codec(x.target)
+	if (err != nil) != st.refused {
+		return fmt.Errorf("Schema.Codec on a shared schema (%s): alone it %s, now it returns err=%v", x.doc, map[bool]string{true: "was refused", false: "built"}[st.refused], err)
+	}
+	now, err := st.schema.Marshal()
+	if err != nil || !bytes.Equal(now, st.before) {
+		return fmt.Errorf("the shared schema value serialises differently after codecs were built from it (err=%v):\n was %s\n now %s", err, st.before, now)
+	}
+	for _, cc := range []avro.Codec{c, st.codec} {
+		if cc == nil {
+			continue
+		}
+		v, want := x.value(k)
+		wb := avro.NewWriteBuf(nil)
+		cc.Write(wb, v.UnsafePointer())
+		if !bytes.Equal(wb.Bytes(), want) {
+			return fmt.Errorf("shared codec for %s wrote % x, the value's encoding is % x", x.doc, wb.Bytes(), want)
+		}
+		back := reflect.New(v.Elem().Type())
+		if err := cc.Read(avro.NewReadBuf(want), back.UnsafePointer()); err != nil || !reflect.DeepEqual(back.Elem().Interface(), v.Elem().Interface()) {
+			return fmt.Errorf("shared codec for %s read % x as %+v (err %v), want %+v", x.doc, want, back.Elem().Interface(), err, v.Elem().Interface())
+		}
+	}
+	return nil
 }
 
 var c12FreshSeq atomic.Int64
@@ -408,6 +525,8 @@ func c12Run(g int, op c12Op, banks chan *avro.ResourceBank) error {
 			return err
 		}
 		return spec.Match(f.abs[vi], spec.Abs(f.ts, false, out.Elem()), "fresh codec decode")
+	case "exotic":
+		return c12ExoticOp(op.Fixture, op.Arg+g)
 	case "evolved":
 		// the same Go type under another generation of its schema (same record name,
 		// top-level fields in reverse order), built and used while other goroutines
@@ -630,7 +749,7 @@ func c12Run(g int, op c12Op, banks chan *avro.ResourceBank) error {
 func drawC12(t *rapid.T) c12Case {
 	var c c12Case
 	n := gen.UniformRange(t, "goroutines", 2, 8)
-	kinds := []string{"schema", "codec", "register", "decode", "encode", "readfile", "closebanks", "time", "decode", "encode", "time", "readfile", "encodefile", "readabort", "evolved"}
+	kinds := []string{"schema", "codec", "register", "decode", "encode", "readfile", "closebanks", "time", "decode", "encode", "time", "readfile", "encodefile", "readabort", "evolved", "exotic"}
 	for g := 0; g < n; g++ {
 		var p []c12Op
 		m := gen.UniformRange(t, "nops", 5, 40)
